@@ -166,10 +166,11 @@ Proof.
   (* strictness of the three ranges: a cosine of +-1 would make the Gram determinant non-positive *)
   assert (S : forall x y z, -1 <= x <= 1 -> -1 <= y <= 1 -> -1 <= z <= 1 -> 0 < gram x y z -> -1 < x < 1).
   { intros x y z Hx Hy Hz G. unfold gram in G.
-    assert (0 < (1 - y * y) * (1 - z * z) - (x - y * z) * (x - y * z)) by lra.
     split.
-    - destruct (Req_dec x (-1)) as [E|N]; [subst; nra|lra].
-    - destruct (Req_dec x 1) as [E|N]; [subst; nra|lra]. }
+    - destruct (Req_dec x (-1)) as [E|N]; [subst; exfalso|lra].
+      pose proof (Rle_0_sqr (y + z)) as Q. unfold Rsqr in Q. lra.
+    - destruct (Req_dec x 1) as [E|N]; [subst; exfalso|lra].
+      pose proof (Rle_0_sqr (y - z)) as Q. unfold Rsqr in Q. lra. }
   assert (Sa : -1 < ca < 1) by (apply (S ca cb cg); assumption).
   assert (Sb : -1 < cb < 1).
   { apply (S cb ca cg); try assumption. unfold gram in *. lra. }
